@@ -9,6 +9,7 @@
 -/
 import CachedModel.State
 import CachedProofs.Lemmas.AMap
+import CachedProofs.Lemmas.EvictId
 import CachedProofs.Lemmas.Admission
 
 namespace Cached
@@ -794,6 +795,16 @@ theorem applyEvict_evFold (s : State) (e : Evicted) (hw : 0 ≤ e.2.2) : EvFold 
   · refine ⟨rfl, rfl, rfl, rfl, rfl, rfl, ?_, fun hk => hk.congr rfl, fun k hk => hk⟩
     simp only [u64Mod]; omega
 
+theorem applyEvictId_evFold (s : State) (e : Evicted) (hw : 0 ≤ e.2.2) : EvFold s (applyEvictId s e) e.2.2 := by
+  rw [applyEvictId_eq]
+  split
+  · exact applyEvict_evFold s e hw
+  · obtain ⟨eid, key, w⟩ := e
+    simp only at hw
+    simp only [evictStatsOnly]
+    refine ⟨rfl, rfl, rfl, rfl, rfl, rfl, ?_, fun hk => hk.congr rfl, fun k hk => hk⟩
+    simp only [u64Mod]; omega
+
 theorem evSum_cons (e : Evicted) (evs : List Evicted) : evSum (e :: evs) = e.2.2 + evSum evs := by
   simp [evSum]
 
@@ -1184,6 +1195,12 @@ theorem applyEvict_env (s : State) (e : Evicted) : envView (applyEvict s e) = en
   simp only [applyEvict]
   split <;> rfl
 
+theorem applyEvictId_env (s : State) (e : Evicted) : envView (applyEvictId s e) = envView s := by
+  rw [applyEvictId_eq]
+  split
+  · exact applyEvict_env s e
+  · rfl
+
 theorem foldl_applyEvict_env : ∀ (evs : List Evicted) (s : State),
     envView (evs.foldl applyEvict s) = envView s := by
   intro evs
@@ -1415,8 +1432,8 @@ theorem sweepEvict_ok (s : State) (id : Nat) : SweepOK s (sweepEvict s id).1 := 
   | some wk =>
     rw [Adm.delete_charged s.adm id wk hc]
     simp only []
-    refine ⟨applyEvict_env _ _, fun hk hw => ?_⟩
-    have F := applyEvict_evFold { s with adm := { s.adm with kw := s.adm.kw.del id, used := s.adm.used - wk.weight } }
+    refine ⟨applyEvictId_env _ _, fun hk hw => ?_⟩
+    have F := applyEvictId_evFold { s with adm := { s.adm with kw := s.adm.kw.del id, used := s.adm.used - wk.weight } }
       (id, wk.key, wk.weight) (hw.nonneg id wk hc)
     refine ⟨F.acc, F.rej, F.cmd, F.key (hk.congr rfl), ?_⟩
     refine wtI_after (dw := 0) hw F (by simp only; omega) (KwNonneg.del hw.nonneg id) rfl ?_ rfl
